@@ -24,11 +24,11 @@ from .shapes_common import Fr
 PID = "C03"
 PROOF_FILES = ["theories/Props/C03.v", "theories/Proofs/SupportA.v", "theories/Proofs/SupportB.v",
                "theories/Proofs/MeshClimb.v", "theories/Spec/Shapes.v", "theories/Base/RVec2.v",
-               "theories/Checker/ShapesCert.v"]
+               "theories/Checker/ShapesCert.v", "theories/Checker/ShapesBridge.v", "theories/Proofs/MeshClimbGen.v"]
 FUEL = 100000
 DIR_CLASSES = ["random", "random", "axis", "sign", "sign", "pow2", "pow2", "shape_axis", "shape_orth"]
 EPS10 = Fr(10) / Fr(2 ** 52)
-CERTS_PER_GROUP = 7   # answers per case and observable submitted to the Coq checker (feature directions first)
+CERTS_PER_GROUP = 5   # answers per case and observable submitted to the Coq checker (feature directions first)
 CASE_CPU = 40        # seconds of user CPU time one case may burn in a shared worker (normal: < 1 s)
 CONFIRM_CPU = 600    # ... when re-run alone, before it is reported as non-terminating
 
@@ -192,7 +192,7 @@ def face_normal_case(rng):
 
 
 def gen_cases(rng, tier):
-    per = 5 if tier == "quick" else 60
+    per = 4 if tier == "quick" else 60
     cases = [face_normal_case(rng) for _ in range(per)]
     for kind in sc.KINDS:
         for stream, share in (("random", 1.0), ("lattice", 0.6), ("exact", 0.6), ("near", 0.3)):
